@@ -528,6 +528,17 @@ func (g *dgen) method(svc *spec.Service, idx int) *spec.Method {
 		m.Responses = []*spec.Response{{Status: []int{204, 200, 202}[t.Draw("status-empty", 3)]}}
 	}
 	_ = status
+	// ---- the service-level error, redeclared by name (its HTTP response stays the service's)
+	if g.svcLevelErr != "" && t.Draw("redeclare-service-error", 2) == 0 {
+		for _, e := range svc.Errors {
+			if e.Name == g.svcLevelErr {
+				cp := *e
+				cp.Inherit = "service"
+				m.Errors = append(m.Errors, &cp)
+				g.feat("errors:service-level-redeclared")
+			}
+		}
+	}
 	// ---- errors: picked from the service's pool, so that one error name means one thing per service
 	ne := t.Pick("nerrors", 3, 3, 2, 1)
 	used := map[int]bool{}
